@@ -27,19 +27,46 @@ func TestProbe(t *testing.T) {
 	var hist prog.History
 	for _, part := range strings.Split(string(b), "\n-----\n") {
 		part = strings.TrimSpace(part)
+		var args []string
+		if strings.HasPrefix(part, "//args ") {
+			nl := strings.Index(part, "\n")
+			args = strings.Split(strings.TrimSpace(part[7:nl]), ";;")
+			part = part[nl+1:]
+		}
 		switch {
 		case strings.HasPrefix(part, "//deploy "):
 			nl := strings.Index(part, "\n")
-			hist.Steps = append(hist.Steps, prog.Step{Kind: prog.Deploy, Name: strings.TrimSpace(part[9:nl]), Source: part[nl+1:], Signers: []uint64{1}})
+			name, addr := strings.TrimSpace(part[9:nl]), uint64(1)
+			if i := strings.Index(name, "@"); i >= 0 {
+				fmt.Sscanf(name[i+1:], "%d", &addr)
+				name = name[:i]
+			}
+			hist.Steps = append(hist.Steps, prog.Step{Kind: prog.Deploy, Name: name, Source: part[nl+1:], Signers: []uint64{addr}})
 		case strings.Contains(part, "transaction"):
-			hist.Steps = append(hist.Steps, prog.Step{Kind: prog.Tx, Source: part, Signers: []uint64{1}})
+			hist.Steps = append(hist.Steps, prog.Step{Kind: prog.Tx, Source: part, Signers: []uint64{1}, Args: args})
 		default:
-			hist.Steps = append(hist.Steps, prog.Step{Kind: prog.Script, Source: part})
+			hist.Steps = append(hist.Steps, prog.Step{Kind: prog.Script, Source: part, Args: args})
 		}
 	}
 	engines := []host.Engine{host.Interp, host.VM}
 	if host.HasPeephole() {
 		engines = append(engines, host.VMPeephole)
+	}
+	var finals []*host.Host
+	for _, e := range engines {
+		_, _, _, fin := splicegen.Run(nil, hist, e, false)
+		finals = append(finals, fin)
+	}
+	for i := 1; i < len(finals); i++ {
+		for _, k := range finals[0].Ledger.Diff(finals[i].Ledger) {
+			fmt.Printf("LEDGER DIFF %s vs %s: %s\n", engines[0], engines[i], k)
+		}
+		for _, k := range finals[0].Ledger.SortedKeys() {
+			a, b := finals[0].Ledger.Values[k], finals[i].Ledger.Values[k]
+			if string(a) != string(b) {
+				fmt.Printf("   %q:\n     %x\n     %x\n", k, a, b)
+			}
+		}
 	}
 	for _, e := range engines {
 		tr := observe(hist, e, false)
